@@ -1923,6 +1923,12 @@ func runExpand(res *mon.Result, scratch string, nStrings int) (done int) {
 
 // ---------------------------------------------------------------------------
 
+func cpuSeconds() float64 {
+	var ru syscall.Rusage
+	syscall.Getrusage(syscall.RUSAGE_SELF, &ru)
+	return float64(ru.Utime.Sec+ru.Stime.Sec) + float64(ru.Utime.Usec+ru.Stime.Usec)/1e6
+}
+
 func main() {
 	res := mon.NewResult("C20")
 	res.Rule = "part 1: configurations generated from (seed,index): blacklist entries (6 kinds), rewriters (plain/regex, max, not), aggregations (9 command functions + percentiles TOML-only, 6 filter options, sub/substr spellings, cache and dropRaw given true/false/omitted), carbon routes (3 types, 6 filter options, 1-4 destinations each with a random subset of the 18 documented destination options) and grafanaNet routes (all 11 options, booleans true/false/omitted, 1-2 routes per file, sometimes next to a carbon route); each option value unique within its case and never equal to a documented default; each configuration is built from its TOML form and from the equivalent commands (directly, or through an [init] cmds array) and every field is compared with written-value-else-documented-default; names, patterns, keys and templates are mixed-case and use \\S \\D \\W \\d \\B, [A-Z] ranges and named groups, and every filter/rewriter probe is repeated lower-cased, upper-cased and case-swapped; part 1b: groups of 4 concurrent sessions (own table each, barrier before each round) apply generated blacklist/rewriter/aggregation/carbon configurations through imperatives.Apply (in a quarter of the rounds also as TOML) and are judged by the same oracle; evaluation = one configuration (both syntaxes) or one '$'-string; non-trivial = at least one option given and one left to its default and both syntaxes built; distinct = distinct given/omitted patterns (values ignored). part 2: '$'-strings from a grammar of documented references, near misses, group references ($1 ${1} ${1}x), $$ ${} unterminated braces, shell specials, non-ASCII bytes, read through the real readConfigFile in the real binary; non-trivial = contains a documented reference and a '$' that must stay. Values are restricted to what the command grammar can express at all: no blanks, no quotes or '#', not all digits, not starting with true/false or a command keyword. kafkaMdm, pubsub and cloudWatch routes cannot be constructed offline (brokers / credentials) and are out of scope."
@@ -1990,8 +1996,9 @@ func main() {
 	t0 = time.Now()
 	// part 1b: concurrent sessions, after the sequential cases (which stay undisturbed) are done
 	sGroups, sSess, sRounds := mon.N(6, 24), 4, mon.N(6, 8)
+	cpu0 := cpuSeconds()
 	ranSess := runSessions(res, scratch, watch, sGroups, sSess, sRounds)
-	fmt.Printf("part 1b: %d configurations in concurrent sessions in %.1fs\n", ranSess, time.Since(t0).Seconds())
+	fmt.Printf("part 1b: %d configurations in concurrent sessions in %.1fs (%.1f cpu-s of this process, part 2 included)\n", ranSess, time.Since(t0).Seconds(), cpuSeconds()-cpu0)
 	t0 = time.Now()
 	// grafanaNet configurations, one at a time, last (their routes stay alive); the ones that leave
 	// concurrency and bufSize to the (large) defaults come at the very end
